@@ -38,6 +38,10 @@ pub enum MemberProd {
     /// element with minOccurs="1" maxOccurs="1" written out, inside a sequence with an occurrence
     ExplicitOne { ty: usize, occ: usize },
     Ref { target: &'static str, occ: usize },
+    /// a choice whose branches are refs to global elements
+    RefInChoice { target: &'static str },
+    /// optional attribute with a default= (false) or fixed= (true) value
+    AttrConstrained { fixed: bool },
 }
 
 pub fn member_label(p: &MemberProd, types: &[(String, TypeRef)]) -> String {
@@ -47,13 +51,15 @@ pub fn member_label(p: &MemberProd, types: &[(String, TypeRef)]) -> String {
         MemberProd::Attr { ty, required } => format!("attribute type={} use={}", types[*ty].0, if *required { "required" } else { "optional" }),
         MemberProd::ExplicitOne { ty, occ } => format!("element type={} explicit min=1 max=1 in sequence min={} max={}", types[*ty].0, OCCS[*occ].0, OCCS[*occ].1.label()),
         MemberProd::Ref { target, occ } => format!("ref={target} min={} max={}", OCCS[*occ].0, OCCS[*occ].1.label()),
+        MemberProd::RefInChoice { target } => format!("ref={target} as a choice branch"),
+        MemberProd::AttrConstrained { fixed } => format!("attribute optional with {}", if *fixed { "fixed=" } else { "default=" }),
     }
 }
 
 /// applies a member production to the holder; `k` makes member names unique
 pub fn apply_member(s: &mut SchemaSet, p: &MemberProd, types: &[(String, TypeRef)], k: usize) {
     // global elements needed by ref productions
-    if let MemberProd::Ref { target, .. } = p {
+    if let MemberProd::Ref { target, .. } | MemberProd::RefInChoice { target } = p {
         let (file, ns) = if target.ends_with("B") { (1, NS_B) } else { (0, NS_A) };
         let exists = s.files[file].comps.iter().any(|c| matches!(c, Comp::Element(g) if g.name == *target));
         if !exists {
@@ -112,10 +118,18 @@ pub fn apply_member(s: &mut SchemaSet, p: &MemberProd, types: &[(String, TypeRef
                 seq.items.push(Particle::Seq(Seq { min: OCCS[*occ].0, max: OCCS[*occ].1, items: vec![Particle::Elem(e)] }));
             }
         }
-        MemberProd::Attr { ty, required } => h.attrs.push(Attr { name: format!("attr{k}"), ty: types[*ty].1.clone(), required: *required }),
+        MemberProd::Attr { ty, required } => h.attrs.push(Attr { name: format!("attr{k}"), ty: types[*ty].1.clone(), required: *required, value_constraint: None }),
         MemberProd::Ref { target, occ } => {
             let ns = if target.ends_with("B") { NS_B } else { NS_A };
             h.seq.as_mut().unwrap().items.push(Particle::Ref(ElemRef { target: QName::new(ns, target), min: OCCS[*occ].0, max: OCCS[*occ].1 }));
+        }
+        MemberProd::RefInChoice { target } => {
+            let ns = if target.ends_with("B") { NS_B } else { NS_A };
+            h.seq.as_mut().unwrap().items.push(Particle::Choice(vec![Particle::Ref(ElemRef { target: QName::new(ns, target), min: 1, max: Max::N(1) }), el(&format!("Alt{k}"), TypeRef::b("string"))]));
+        }
+        MemberProd::AttrConstrained { fixed } => {
+            h.attrs.push(Attr { name: format!("attr{k}"), ty: TypeRef::b("string"), required: false, value_constraint: Some((*fixed, "EUR".into())) });
+            h.attrs.push(Attr { name: format!("num{k}"), ty: TypeRef::b("int"), required: false, value_constraint: Some((*fixed, "7".into())) });
         }
     }
 }
@@ -165,7 +179,11 @@ pub fn member_productions(types: &[(String, TypeRef)], reduced: bool) -> Vec<Mem
             v.push(MemberProd::Attr { ty: i, required: r });
         }
     }
+    for fixed in [false, true] {
+        v.push(MemberProd::AttrConstrained { fixed });
+    }
     for target in ["GlobalAnon", "GlobalAnonB", "GlobalTyped", "GlobalTypedB", "GlobalBuiltin"] {
+        v.push(MemberProd::RefInChoice { target });
         for &o in &occs {
             if reduced && o != 0 {
                 continue;
@@ -180,6 +198,18 @@ pub fn member_productions(types: &[(String, TypeRef)], reduced: bool) -> Vec<Mem
 /// component-level productions: each kind once in A and once in B
 pub fn component_states() -> Vec<State> {
     let mut out = vec![];
+    // the schema embedded in a WSDL <types> section, with a base and a ref that are declared LATER
+    {
+        let mut s = crate::seeds::w0();
+        let w = s.wsdl.as_mut().unwrap();
+        let q = |n: &str| QName::new(NS_W, n);
+        w.schema.comps.insert(0, Comp::Complex(ComplexType { name: "EarlyDerived".into(), base: Some(q("LateBase")), seq: Some(Seq::of(vec![el("OwnEarly", TypeRef::b("string"))])), ..Default::default() }));
+        w.schema.comps.insert(1, complex("EarlyBasket", vec![Particle::Ref(ElemRef { target: q("LateSerial"), min: 1, max: Max::N(1) }), Particle::Ref(ElemRef { target: q("LateAnon"), min: 0, max: Max::N(1) })]));
+        w.schema.comps.push(Comp::Complex(ComplexType { name: "LateBase".into(), seq: Some(Seq::of(vec![el("InLateBase", TypeRef::b("long"))])), attrs: vec![Attr { name: "lateAttr".into(), ty: TypeRef::b("string"), required: false, value_constraint: None }], ..Default::default() }));
+        w.schema.comps.push(typed_element("LateSerial", TypeRef::b("unsignedLong")));
+        w.schema.comps.push(anon_element("LateAnon", vec![el("InLateAnon", TypeRef::b("string"))]));
+        out.push(State { label: "add types with forward base= and ref= inside a WSDL-embedded schema".into(), depth: 1, set: s });
+    }
     // default namespace = target namespace, references unprefixed, and the imported namespace
     // declares components with the SAME local names
     {
@@ -212,6 +242,30 @@ pub fn component_states() -> Vec<State> {
             let mut s = seed();
             s.files[file].comps.push(c);
             out.push(State { label, depth: 1, set: s });
+        }
+    }
+    out
+}
+
+/// A global element and a type definition sharing ONE name in ONE namespace (separate symbol
+/// spaces in XML Schema) while the element is NOT simply an instance of that type. Judged by C01
+/// only: C02's oracle finds a component's struct by (namespace, name) and presupposes unique items.
+pub fn name_collision_states() -> Vec<State> {
+    let mut out = vec![];
+    for first in [false, true] {
+        let variants: Vec<(&str, Comp)> = vec![
+            ("anonymous global element named like a complex type", anon_element("Leaf", vec![el("InElementLeaf", TypeRef::b("int"))])),
+            ("global element named like a complex type but typed by another type", typed_element("Leaf", TypeRef::n(NS_A, "Code"))),
+            ("builtin-typed global element named like a simple type", typed_element("Code", TypeRef::b("long"))),
+        ];
+        for (label, c) in variants {
+            let mut s = seed();
+            if first {
+                s.files[0].comps.insert(0, c);
+            } else {
+                s.files[0].comps.push(c);
+            }
+            out.push(State { label: format!("add name-collision: {label}, declared {}", if first { "first" } else { "last" }), depth: 1, set: s });
         }
     }
     out
